@@ -8,7 +8,7 @@ use crate::Ctx;
 use serde_json::json;
 
 /// canonical (WHATWG) text of an IPv6 address given as groups — written independently of the model
-fn canon6(g: &[u16; 8]) -> String {
+pub fn canon6(g: &[u16; 8]) -> String {
   let (mut best, mut best_len, mut i) = (usize::MAX, 0usize, 0usize);
   while i < 8 {
     if g[i] == 0 {
@@ -173,6 +173,12 @@ fn gen(rng: &mut Rng) -> (String, Kind, &'static str) {
     9 => {
       let t = *rng.pick(&[":80", "::1:80", "2001:db8::1:80", "1:2:3:4:5:6:7:8:80", "fe80::1:1"]);
       (t.to_string(), Kind::MustReject, "empty-host-or-unbracketed-ipv6")
+    }
+    10 if rng.chance(1, 4) => {
+      // a line feed, and after it something that alone would be a valid value: the whole argument is the value
+      let before = *rng.pick(&["a b/c", "::1", "x", "", "junk:1", "[::1]"]);
+      let after = *rng.pick(&["foo.com:80", "[::1]:6881", "1.2.3.4:1"]);
+      (format!("{before}\n{after}"), Kind::MustReject, "line-feed-before-a-valid-value")
     }
     10 => {
       let c = *rng.pick(&[' ', '#', '/', '<', '>', '?', '@', '\\', '^', '|', '\t', '\u{7f}', '[', ']']);
@@ -344,7 +350,7 @@ pub fn run(ctx: &Ctx) -> Report {
   }
   // ---- CLI: create --node, show --json, link --peer
   // hosts made of characters that are legal in a domain but reserved in a query string come first
-  let reserved_hosts = ["a+b.example.com:6881", "a&b.example.com:1", "k=v.example:2", "semi;colon.example:3", "a,b.example:4", "ex!ample$.com:5", "(paren).example:6", "tilde~under_score.example:7", "star*.example:9", "quote'.example:10"];
+  let reserved_hosts = ["a+b.example.com:6881", "a&b.example.com:1", "k=v.example:2", "semi;colon.example:3", "a,b.example:4", "ex!ample$.com:5", "(paren).example:6", "tilde~under_score.example:7", "star*.example:9", "quote'.example:10", "bücher.de:6881", "xn--fa-hia.de:5"];
   let cli_texts: Vec<String> = reserved_hosts.iter().map(|s| s.to_string()).filter(|t| imdl::verif::hostport_parse(t).is_ok()).chain(valid_samples.iter().take(ctx.n(12, 40) as usize).cloned()).collect();
   for (ci, text) in cli_texts.iter().enumerate() {
     let want = imdl::verif::hostport_parse(text).unwrap_or_default();
@@ -447,6 +453,17 @@ pub fn run(ctx: &Ctx) -> Report {
     }
     if nodes != vec![want.clone(), want2.clone()] {
       bad = Some(format!("show --json dht_nodes {nodes:?}, expected [{want}, {want2}]"));
+    }
+    // the other two renderings of `show` carry the same normalised text
+    let plain = Cmd::new(&ctx.imdl, &["torrent", "show", "--input", "o.torrent"]).cwd(&sb.root).run();
+    let row: Option<Vec<String>> = plain.stdout_s().lines().find_map(|l| l.strip_prefix("dht nodes\t").map(|r| r.split('\t').map(|x| x.to_string()).collect()));
+    if row != Some(vec![want.clone(), want2.clone()]) {
+      bad = Some(format!("show (tab-separated) `dht nodes` {row:?}, expected [{want}, {want2}]"));
+    }
+    let term = Cmd::new(&ctx.imdl, &["--terminal", "torrent", "show", "--input", "o.torrent"]).cwd(&sb.root).run();
+    let shown: Vec<String> = term.stdout_s().lines().skip_while(|l| !l.trim_start().starts_with("DHT Nodes")).take(2).map(|l| l.trim_start().trim_start_matches("DHT Nodes").trim().to_string()).collect();
+    if shown != vec![want.clone(), want2.clone()] {
+      bad = Some(format!("--terminal show `DHT Nodes` {shown:?}, expected [{want}, {want2}]"));
     }
     if let Some(b) = bad {
       report.fail("property", "hostport-cli", case, format!("given `{text}` (normalised `{want}`): {b}"));
